@@ -153,6 +153,18 @@ def worlds(tier):
                     for r in w["reads"]:
                         r["style"] = "=X"
                     yield w, dict(tag="PS")
+    # a read that ends on the anchor base of an insertion its haplotype carries (it shows nothing of the inserted bases)
+    # and is the only link between the first variant and the rest
+    for ins_len in (1, 2, 3):
+        tv = (("SNV", 1), ("INS", ins_len), ("SNV", 1))
+        for hp in [(0, 0, 0), (0, 1, 0), (0, 0, 1), (0, 1, 1)]:
+            for h in (0, 1):
+                wid += 1
+                w = make_world(wid, tv, [hp], [], 6, depth=1)
+                w["reads"] = [{"sample": "S1", "chrom": "chrA", "hap": h, "segs": [[0, 0, 6, SPACING - 1 + 1]], "n": 1, "force_ref": [1]}]
+                for hh in (0, 1):
+                    w["reads"].append({"sample": "S1", "chrom": "chrA", "hap": hh, "segs": [[1, 2, 6, 6]], "n": 1})
+                yield w, dict(tag="PS")
     # several alignment files for one sample; read names are unique within a file only
     for tv in [(("SNV", 1),) * 4, (("SNV", 1), ("INS", 1), ("SNV", 1), ("DEL", 1))]:
         k = 4
